@@ -46,6 +46,7 @@ theorem readDqmBlob_npz (crc32 : Bytes → Nat) (inflate : Bytes → Option Byte
     (hsize : (npzBytes crc32 deflate μ (dqmMembers c)).length < 4294967295) :
     ∃ x e, npzBytes crc32 deflate μ (dqmMembers c) = x ++ e ∧ e.length = 22 ∧ e.take 4 = sigEOCD ∧ e.drop 20 = [0, 0] ∧
       (EndRec.mk x.length e).sizeCd ≤ x.length ∧ (x ++ e).take 4 = sigLocal ∧
+      readNpzBytes crc32 inflate ⟨x.length, e⟩ (x ++ e) = some (dqmMembers c) ∧
       readDqmBlob crc32 inflate ⟨x.length, e⟩ (x ++ e) = some c := by
   have h256 : (256 : Nat) ^ 4 = 4294967296 := by decide
   have hzs := mkEntries_ok crc32 inflate deflate μ hcrc hcodec hμ (npzArchive (dqmMembers c)) 0 hfit
@@ -60,17 +61,21 @@ theorem readDqmBlob_npz (crc32 : Bytes → Nat) (inflate : Bytes → Option Byte
   obtain ⟨a, b, cc⟩ := eocdRecord_shape zs.length (zipCD 0 zs).length (0 + (zipLocals zs).length)
   obtain ⟨d, _, _⟩ := eocdRecord_fields zs.length (zipCD 0 zs).length (0 + (zipLocals zs).length)
     (zipLocals zs ++ zipCD 0 zs).length (by simp only [List.length_nil] at hsz; omega) (by simp only [List.length_nil] at hsz; omega) hcnt
-  refine ⟨zipLocals zs ++ zipCD 0 zs, eocdRecord zs.length (zipCD 0 zs).length (0 + (zipLocals zs).length), ?_, a, b, cc, ?_, ?_, ?_⟩
+  have hnpz : readNpzBytes crc32 inflate ⟨(zipLocals zs ++ zipCD 0 zs).length, eocdRecord zs.length (zipCD 0 zs).length (0 + (zipLocals zs).length)⟩
+      ((zipLocals zs ++ zipCD 0 zs) ++ eocdRecord zs.length (zipCD 0 zs).length (0 + (zipLocals zs).length)) = some (dqmMembers c) := by
+    have hr := readDirBytes_zipBytes crc32 inflate [] zs hzs hcnt hsz
+    simp only [List.nil_append, List.length_nil] at hr
+    unfold readNpzBytes readDirChars
+    rw [hr, hmem]
+    simp only [Option.map_some, Option.bind_some]
+    rw [asciiRoundtrip_members _ (npzArchive_names_ascii c), npzMembersOf_archive _ hnpy]
+  refine ⟨zipLocals zs ++ zipCD 0 zs, eocdRecord zs.length (zipCD 0 zs).length (0 + (zipLocals zs).length), ?_, a, b, cc, ?_, ?_, hnpz, ?_⟩
   · simp [zipBytes, List.append_assoc]
   · rw [d]; simp only [List.length_append]; omega
   · obtain ⟨z, zs', rfl⟩ := hne
     simp [zipLocals, localEntry, localFixed, sigLocal]
-  · have hr := readDirBytes_zipBytes crc32 inflate [] zs hzs hcnt hsz
-    simp only [List.nil_append, List.length_nil] at hr
-    unfold readDqmBlob readNpzBytes readDirChars
-    rw [hr, hmem]
-    simp only [Option.map_some, Option.bind_some]
-    rw [asciiRoundtrip_members _ (npzArchive_names_ascii c), npzMembersOf_archive _ hnpy]
+  · unfold readDqmBlob
+    rw [hnpz]
     simp only [Option.bind_some, dqmFromMembers_members c wf]
 
 end FileFmt
